@@ -27,6 +27,8 @@ RECURSION_EXEMPT = {
 
 
 def run(prog, rep):
+    from rules import definite_init
+    definite_init.check(prog, rep, 'R2.10')
     from rules import encoded_reader
     encoded_reader.check(prog, rep, ids={'R13.6': 'R2.8', 'R13.7': 'R2.9'})     # window memory safety; progress at end of file (no hang)
     # ---------------------------------------------------------------- R2.1
